@@ -25,6 +25,7 @@ func init() {
 		c17CorsFirst(c)
 		headerValuesComplete(c, "C17.10")
 		varyAllLines(c, "C17.11")
+		upgradeResponseHeaders(c, "C17.12")
 	})
 }
 
